@@ -265,8 +265,12 @@ def _spec_line(res):
     targets = list(_arena_graphs)
     eq = {}
 
+    eq_names = {}
+
     def eqid(t):
-        return eq.setdefault(t.equivalence_id, len(eq))
+        e = eq.setdefault(t.equivalence_id, len(eq))
+        eq_names.setdefault(e, set()).add(t.name)
+        return e
 
     def arena(t):
         return t is not None and any(t.mem_area == a and t.mem_type in s for a, s in targets)
@@ -336,6 +340,7 @@ def _spec_line(res):
     line = (f"lrspec R={','.join(ranges)} in={ar(root.input_tensors)} out={ar(root.output_tensors)} C={';'.join(cmds)}")
     stats["shared_ranges"] = sum(1 for k in targets for lr in _arena_graphs[k][0].lrs
                                  if len({t.equivalence_id for t in lr.tensors}) > 1)
+    stats["eq_names"] = {str(e): sorted(v) for e, v in eq_names.items()}      # names only: to attribute a known finding
     return line, stats
 
 
@@ -578,8 +583,11 @@ def _canon_model(ans):
     return d
 
 
-def stage(ck, outs, prefix="liverange_"):
-    """Model = real on every recorded instance; Lean Spec on the real ranges of every compiled network."""
+def stage(ck, outs, prefix="liverange_", known=None):
+    """Model = real on every recorded instance; Lean Spec on the real ranges of every compiled network.
+    `known`: (profile, index) -> (key, tensor names) of networks whose in-place decisions the Lean Spec of
+    harness/inplace_lib.py rejects for a recorded finding; a `clobbers`-only rejection here whose destroyed tensors are all
+    among those names is the same finding seen on the live ranges."""
     import common
     import re
     import time
@@ -654,12 +662,19 @@ def stage(ck, outs, prefix="liverange_"):
             raise common.InfraError("unexpected lrspec answer: " + ans[:200])
         ck.count(prefix + "spec_networks")
         for k, v in st.items():
-            ck.count(prefix + "spec_" + k, v)
+            if k != "eq_names":
+                ck.count(prefix + "spec_" + k, v)
         nu, nio, ncl, nrg = int(m.group(1)), int(m.group(3)), int(m.group(5)), int(m.group(7))
         if nu or nio or ncl or nrg:
-            rejected[(o["profile"], o["idx"])] = (o, line, ans, nu, nio, ncl, nrg)
+            rejected[(o["profile"], o["idx"])] = (o, line, ans, nu, nio, ncl, nrg, st.get("eq_names", {}), m.group(6))
     # failing-input search: a disagreement is the code's fault only if the Lean Spec rejects the real ranges
-    for (o, line, ans, nu, nio, ncl, nrg) in rejected.values():
+    for (o, line, ans, nu, nio, ncl, nrg, eq_names, cl) in rejected.values():
+        key = None
+        kn = (known or {}).get((o["profile"], o["idx"]))
+        if kn is not None and ncl and not (nu or nio or nrg):
+            tens = [tok.split(":")[1] for tok in cl.split()]
+            if tens and all(set(eq_names.get(t, [])) & kn[1] for t in tens):
+                key = kn[0]
         what = []
         if nu:
             what.append("tensor accessed outside its live range (tensor@lo..hi): " + ans.split(" | ")[0])
@@ -673,7 +688,7 @@ def stage(ck, outs, prefix="liverange_"):
                         "op@time<previous): " + ans.split(" | ")[3])
         ck.violation("; ".join(what) + f" (network {o['idx']} {o['profile']} {o['opts']})",
                      {"profile": o["profile"], "seed": o["seed"], "index": o["idx"], "opts": o["opts"], "network": o["desc"],
-                      "lrspec_request": line[:6000], "verdict": ans}, found_input=True)
+                      "lrspec_request": line[:6000], "verdict": ans}, found_input=True, key=key)
     for r, o, bad in disagreements[:6]:
         key = (o["profile"], o["idx"])
         ck.violation(f"live-range model and live_range.py disagree on {r['kind']} subgraph {r['sg']}: {bad} "
